@@ -5,6 +5,8 @@ namespace Qrlew
 /-- Denotation: `x` lies in one of the intervals. -/
 def Mem (x : Int) (l : Ivs) : Prop := ∃ p ∈ l, p.1 ≤ x ∧ x ≤ p.2
 
+instance (x : Int) (l : Ivs) : Decidable (Mem x l) := by unfold Mem; infer_instance
+
 /-- every interval is non-empty, starts strictly above `m`, and the list is strictly ascending and disjoint. -/
 def SortedAbove : Int → Ivs → Prop
   | _, [] => True
